@@ -48,7 +48,8 @@ def canon_json(j):
 
 
 def direct(root, spec):
-    return run_impl(IMPL, {'root': root, 'spec': spec, 'fmts': [B.format_string(s) for s in spec['sources']]}, timeout=120)
+    return run_impl(IMPL, {'root': root, 'spec': spec, 'fmts': [B.format_string(s) for s in spec['sources']],
+                           'delims': [B.setting_delimiter(s) for s in spec['sources']]}, timeout=120)
 
 
 def first_diff(a, b, path=''):
@@ -383,7 +384,7 @@ def coq_case(spec, per_source, seqs, rc, names_reported=None, state_override=Non
     pos = {}   # (source name, date, desc, amount) -> list of (k, merchant)
     for i, (s, ps) in enumerate(zip(spec['sources'], per_source)):
         st = s['state'] if not state_override or state_override[0] != i else state_override[1]
-        cst = {'present': 'Present', 'missing': 'Missing', 'dir': 'Unreadable', 'badutf8': 'Unreadable'}[st]
+        cst = {'present': 'Present', 'missing': 'Missing'}.get(st, 'Unreadable')
         content = 'None'
         if 'txns' in ps and st == 'present':
             items = []
@@ -482,7 +483,7 @@ def main(tier):
             elif present:
                 nons = [i for i in present if not spec['sources'][i]['supplemental']]
                 if nons:
-                    miss = (rnd.choice(nons), rnd.choice(['missing', 'missing', 'dir', 'badutf8']))
+                    miss = (rnd.choice(nons), rnd.choice(B.BAD_STATES))
         jobs.append((k, spec, toggles, miss))
     results = B.pmap(eval_budget, jobs)
 
